@@ -29,10 +29,14 @@ type Reg struct {
 	MPipes map[string]*MPipe // "type/pid" -> registered pipeline
 	MTypes map[string]bool   // event types the broker knows (graph exists)
 
-	History     []string
-	LastFailed  bool            // the last registry call returned an error / false
-	CloseErrIDs map[string]bool // node ids whose objects fail on Close
-	sends       int
+	History    []string
+	LastFailed bool // the last registry call returned an error / false
+	// FalseIsFailure (C05): a RemovePipelineAndNodes that reports false for a registered pipeline is not
+	// judged here (C06 does that) but treated as a failed call: the model stays as it was and the
+	// caller's before/after projection comparison decides whether anything observable changed.
+	FalseIsFailure bool
+	CloseErrIDs    map[string]bool // node ids whose objects fail on Close
+	sends          int
 }
 
 type MNode struct {
@@ -239,6 +243,9 @@ func (r *Reg) removePipelineAndNodes(ctx context.Context, typ, pid string) strin
 		return r.noCloses(before, "failed RemovePipelineAndNodes("+key+")")
 	}
 	if !ok {
+		if r.FalseIsFailure {
+			return ""
+		}
 		return fmt.Sprintf("RemovePipelineAndNodes(%s) returned false (%v) for a registered pipeline", key, err)
 	}
 	delete(r.MPipes, key)
